@@ -52,7 +52,8 @@ def case_strategy(tier):
                 kind=kind, sem=sem, duration=dur, pairs=pairs, batch=batch,
                 dep_time=draw(st.sampled_from([True, True, True, False])),
                 dep_batch=draw(st.booleans()),
-                real=draw(st.sampled_from([False, False, True])),
+                # a free real parameter multiplying / added to every factor, or one parameter per time step (w[time], w: Reals[T])
+                real=draw(st.sampled_from([False, False, True, "per_step"])),
                 algo=algo, segments=R(1, dur), a=R(0, 9973), b=R(1, 97),
                 time=draw(st.sampled_from(["t", "time", "pa_t"])),
             )
@@ -110,7 +111,12 @@ def build_markov(case):
     # permute funsor inputs so that name order is not the canonical one
     trans = Tensor(tdata, inputs)
     rval = None
-    if case["real"]:
+    if case["real"] == "per_step":
+        from funsor import Reals
+
+        S, P = funsor_ops(case["sem"])
+        trans = P(trans, Variable("r", Reals[dur])[Variable(tname, Bint[dur])])
+    elif case["real"]:
         r = Variable("r", Real)
         S, P = funsor_ops(case["sem"])
         trans = P(trans, r)
@@ -130,7 +136,8 @@ def oracle_fold(case, full, rval):
     bshape = tuple(b[1] for b in batch)
     T = full.reshape((full.shape[0],) + bshape + (m, m))
     if rval is not None:
-        T = P(T, rval)
+        rv = np.asarray(rval, dtype=float)
+        T = P(T, rv.reshape((-1,) + (1,) * (T.ndim - 1)) if rv.ndim == 1 else rv)
     R = T[0]
     for t in range(1, T.shape[0]):
         # R[..., p, c] = S_m P(R[..., p, m], T[t][..., m, c])
@@ -240,7 +247,9 @@ class C10(Prop):
             expected_inputs.add("r")
         if not set(r.inputs) <= expected_inputs:
             raise Violation("extra-inputs", f"result inputs {list(r.inputs)} not among {sorted(expected_inputs)}: {self.describe(case)}")
-        for rval in ([None] if not case["real"] else [0.5, 1.25]):
+        d_ = case["duration"]
+        rvals = [None] if not case["real"] else ([0.5, 1.25] if case["real"] != "per_step" else [[0.5 + 0.25 * ((3 * t) % 5) for t in range(d_)], [1.25 - 0.25 * (t % 3) for t in range(d_)]])
+        for rval in rvals:
             want = oracle_fold(case, full, rval)
             bshape = [range(b[1]) for b in batch]
             sizes = [range(p[2]) for p in pairs]
